@@ -179,6 +179,9 @@ func (c *checkCtx) tlc(module, cfg string, o tlcOpts) *tlcResult {
 	}
 	if o.timeout == 0 {
 		o.timeout = 20 * time.Minute
+		if c.tier == "thorough" {
+			o.timeout = 45 * time.Minute // sized for a few minutes on an idle machine; the margin is for a loaded one
+		}
 	}
 	meta := filepath.Join(c.work, fmt.Sprintf("meta%d", seq))
 	args := []string{"-XX:+UseParallelGC", "-Xss512m"}
